@@ -305,6 +305,53 @@ m("C38", "pool_fact_index_written_once", POOL,
 """)],
   "VIOLATION", "OperationHashes writes the fact index only the first time a fact is seen: with 3 operations of one fact the proposal lists the fact twice (seeded/C38-A)")
 
+# ---------------------------------------------------------------- round 2 (seeded/C23-D, C24-C, C24-D)
+m("C23", "lookup_cache_not_purged_by_height", POOL,
+  [("	opcache                           util.GCache[string, base.Operation]\n	cleanRemovedNewOperationsInterval time.Duration\n",
+    "	opcache                           util.GCache[string, base.Operation]\n	expelopcache                      util.GCache[string, base.SuffrageExpelOperation]\n	cleanRemovedNewOperationsInterval time.Duration\n"),
+   ("		opcache:                           opcache,\n	}\n",
+    "		opcache:                           opcache,\n		expelopcache:                      util.NewLRUGCache[string, base.SuffrageExpelOperation](1 << 9),\n	}\n"),
+   ("	nodeb := node.Bytes()\n	heighti := height.Int64()\n\n	var enchint string\n",
+    "	cachekey := height.String() + \"-\" + node.String()\n	if op, found := db.expelopcache.Get(cachekey); found {\n		return op, true, nil\n	}\n\n	nodeb := node.Bytes()\n	heighti := height.Int64()\n\n	var enchint string\n"),
+   ("	if err := DecodeFrame(db.encs, enchint, opb, &op); err != nil {\n		return nil, false, e.Wrap(err)\n	}\n\n	return op, true, nil\n}\n",
+    "	if err := DecodeFrame(db.encs, enchint, opb, &op); err != nil {\n		return nil, false, e.Wrap(err)\n	}\n\n	db.expelopcache.Set(cachekey, op, 0)\n\n	return op, true, nil\n}\n"),
+   ("	if err := pst.Put(newSuffrageExpelOperationKey(op.ExpelFact()), opb, nil); err != nil {\n		return e.Wrap(err)\n	}\n\n	return nil\n",
+    "	if err := pst.Put(newSuffrageExpelOperationKey(op.ExpelFact()), opb, nil); err != nil {\n		return e.Wrap(err)\n	}\n\n	db.expelopcache.Purge()\n\n	return nil\n"),
+   ("	for i := range facts {\n		batch.Delete(newSuffrageExpelOperationKey(facts[i]))\n	}\n\n	if err := pst.Batch(batch, nil); err != nil {\n		return e.Wrap(err)\n	}\n\n	return nil\n",
+    "	for i := range facts {\n		batch.Delete(newSuffrageExpelOperationKey(facts[i]))\n	}\n\n	if err := pst.Batch(batch, nil); err != nil {\n		return e.Wrap(err)\n	}\n\n	db.expelopcache.Purge()\n\n	return nil\n")],
+  "VIOLATION", "lookup cache purged by Set and RemoveByFact but not by RemoveByHeight: a removed operation is still found (seeded/C23-D)")
+m("C24", "ballot_key_flag_from_expels", POOL,
+  [("	key := leveldbBallotKey(bl.Point(), isaac.IsSuffrageConfirmBallotFact(bl.SignFact().Fact()))\n",
+    "	issc := false\n	if f, ok := bl.SignFact().Fact().(isaac.ExpelBallotFact); ok && bl.Point().Stage() == base.StageINIT {\n		issc = len(f.ExpelFacts()) > 0\n	}\n\n	key := leveldbBallotKey(bl.Point(), issc)\n")],
+  "VIOLATION", "the suffrage-confirm flag of the ballot key is derived from 'INIT ballot with expel facts' (seeded/C24-C)")
+m("C24", "proposal_known_by_point_key", POOL,
+  [("""	key := leveldbProposalKey(pr.Fact().Hash())
+
+	// NOTE exists and put should be one step; without lock, the concurrent
+	// callers with the same fact can pass exists together.
+	db.setProposalLock.Lock()
+	defer db.setProposalLock.Unlock()
+
+	switch found, err := pst.Exists(key); {""", """	key := leveldbProposalPointKey(pr.ProposalFact().Point(), pr.ProposalFact().Proposer(), pr.ProposalFact().PreviousBlock())
+
+	// NOTE exists and put should be one step; without lock, the concurrent
+	// callers with the same fact can pass exists together.
+	db.setProposalLock.Lock()
+	defer db.setProposalLock.Unlock()
+
+	switch found, err := pst.Exists(key); {""")],
+  "VIOLATION", "SetProposal's already-known check uses the point key: a second fact of the position is refused and not stored by hash (seeded/C24-D)")
+
+m("C38", "set_proposal_error_ignored", MAKER,
+  [("""	if _, err := p.pool.SetProposal(signfact); err != nil {
+		return sf, err
+	}
+""", """	if _, err := p.pool.SetProposal(signfact); err != nil {
+		p.Log().Error().Err(err).Msg("failed to save proposal in pool")
+	}
+""")],
+  "VIOLATION", "makeProposal only logs a failed pool write and hands the proposal out: asked again, the node signs another one (seeded/C38-D)")
+
 
 def main():
     want = set(sys.argv[1:])
